@@ -1661,11 +1661,9 @@ def _guard_kind(fn: ast.AST, test: ast.AST, pol: bool = True, depth: int = 0) ->
         return _guard_kind(fn, test.operand, not pol, depth + 1)
     if isinstance(test, ast.BoolOp):
         conj = isinstance(test.op, ast.And)
-        if conj == pol:
-            kinds = [_guard_kind(fn, v, pol, depth + 1) for v in test.values]
-        else:
-            # only a disjunction of the facts is known: each part must be harmless either way
-            kinds = [(_guard_kind(fn, v, True, depth + 1) and _guard_kind(fn, v, False, depth + 1)) for v in test.values]
+        # conjunction of facts, or (for `not (a and b)` / `a or b`) a disjunction of them: every part must be of
+        # an accepted kind IN ITS OWN POLARITY
+        kinds = [_guard_kind(fn, v, pol, depth + 1) for v in test.values]
         return "+".join(sorted(set(kinds))) if all(kinds) else None
     if isinstance(test, ast.Call) and isinstance(test.func, ast.Attribute):
         if test.func.attr == "is_leaf" and not test.args:
@@ -1725,9 +1723,10 @@ def _dominating_tests(fn: ast.AST, node: ast.AST) -> List[Tuple[ast.AST, Optiona
                                 continue
                             inner_loop = in_loop or isinstance(sub, (ast.For, ast.While))
                             if isinstance(child, ast.Return) or (isinstance(child, (ast.Continue, ast.Break)) and not inner_loop):
-                                for g, _p in guards(fn, child):
+                                for g, p_ in guards(fn, child):
                                     if any(n is g for n in ast.walk(st)):
-                                        out.append((g, None))
+                                        # the statement runs when NOT all conditions of the exit hold: this one negated
+                                        out.append((g, not p_))
                             stack.append((child, inner_loop))
         cur = parent
     return out
@@ -1763,10 +1762,7 @@ def candidate_guards(prog: Program) -> RuleResult:
         kinds: Set[str] = set()
         for sink in sinks:
             for test, pol_ in _dominating_tests(fn, sink):
-                if pol_ is None:
-                    kind = _guard_kind(fn, test, True) and _guard_kind(fn, test, False)
-                else:
-                    kind = _guard_kind(fn, test, pol_)
+                kind = _guard_kind(fn, test, pol_)
                 if kind is None:
                     bad = (sink, test)
                     break
